@@ -167,7 +167,7 @@ PROPS['C07'] = dict(
 PROPS['C16'] = dict(
     lean_modules=['Model.Ante', 'Model.VAuth', 'Properties.C07', 'Properties.C16', 'Facts.Ante', 'Facts.VAuth', 'Facts.TieAnte', 'Facts.TieAnteChain', 'Facts.TieVAuth', 'Facts.TieMeta'],
     facts=['*'],
-    theorems=['tie_has_single_eth', 'tie_vesting_gate', 'tie_vesting_gate_model', 'goGate_model', 'tie_submit_proof', 'tie_submit_rejected_no_effect', 'tie_submit_ok', 'tie_submit_save_last', 'fact_translated_all', 'fact_uninterpreted', 'C16_gate', 'C16_proof_sound', 'C16_cost', 'C16_final', 'C16_reject_noop', 'C16_stored_signed', 'sound_step', 'final_step',
+    theorems=['tie_has_single_eth', 'tie_vesting_gate', 'tie_vesting_gate_model', 'goGate_model', 'goGate_none_all', 'tie_submit_proof', 'tie_submit_rejected_no_effect', 'tie_submit_ok', 'tie_submit_save_last', 'fact_translated_all', 'fact_uninterpreted', 'C16_gate', 'C16_proof_sound', 'C16_cost', 'C16_final', 'C16_reject_noop', 'C16_stored_signed', 'sound_step', 'final_step',
               'genesis_sound', 'vestingGate_sound', 'C07_cosmos_lane', 'checkMsgs_sound',
               'fact_vauth_cost', 'fact_vauth_message', 'fact_disabled_list', 'fact_ante_chain', 'fact_nested_cap'],
     engines=[dict(name='vauth', test='TestEngineVauth', quick=300, thorough=4000, thorough_seeds=3),
